@@ -529,7 +529,7 @@ pub fn run_fmachine(a: &Args, out: &mut Out) {
             // ---------------- Fq2
             let d = rng.gen_range(0..3);
             let (x, y) = (live(&f2, &mut rng), live(&f2, &mut rng));
-            let c = rng.gen_range(0..10);
+            let c = rng.gen_range(0..11);
             match (c, x, y) {
                 (0, _, _) => { let one = rng.gen(); out.call("mf", json!({"T": "Fq2", "d": F2B + d, "fn": if one { "one" } else { "zero" }}), || { f2[d] = Some(if one { Fq2::one() } else { Fq2::zero() }); f_obs!(f2, F2B, d) }); }
                 (1 | 2, _, _) | (_, None, _) | (_, _, None) => {
@@ -547,6 +547,17 @@ pub fn run_fmachine(a: &Args, out: &mut Out) {
                 }
                 (6, Some(x), _) => { out.call("mf", json!({"T": "Fq2", "d": F2B + d, "fn": "neg", "a": F2B + x}), || { f2[d] = Some(-f2[x].unwrap()); f_obs!(f2, F2B, d) }); }
                 (7 | 8, Some(x), _) => { let s = f2[x].unwrap(); out.call("mf", json!({"T": "Fq2", "d": F2B + d, "fn": "sqrt", "a": F2B + x}), || match s.sqrt() { Some(z) => { f2[d] = Some(z); f_obs!(f2, F2B, d) } None => outs! {"res" => Value::from("none")} }); }
+                (9, Some(x), _) => {
+                    // a composition of public calls: the conjugate of x through real / imaginary / neg / new, then x * conj(x)
+                    // (a product whose imaginary part vanishes although every contribution is non-zero)
+                    let (r0, r1) = (0usize, 1usize);
+                    out.call("mf", json!({"T": "Fq", "d": FQB + r0, "fn": "real", "a": F2B + x}), || { fq[r0] = Some(f2[x].unwrap().real()); f_obs!(fq, FQB, r0) });
+                    out.call("mf", json!({"T": "Fq", "d": FQB + r1, "fn": "imaginary", "a": F2B + x}), || { fq[r1] = Some(f2[x].unwrap().imaginary()); f_obs!(fq, FQB, r1) });
+                    out.call("mf", json!({"T": "Fq", "d": FQB + r1, "fn": "neg", "a": FQB + r1}), || { fq[r1] = Some(-fq[r1].unwrap()); f_obs!(fq, FQB, r1) });
+                    let c = (x + 1) % 3;
+                    out.call("mf", json!({"T": "Fq2", "d": F2B + c, "fn": "new", "a": FQB + r0, "b": FQB + r1}), || { f2[c] = Some(Fq2::new(fq[r0].unwrap(), fq[r1].unwrap())); f_obs!(f2, F2B, c) });
+                    out.call("mf", json!({"T": "Fq2", "d": F2B + d, "fn": "mul", "a": F2B + x, "b": F2B + c}), || { f2[d] = Some(f2[x].unwrap() * f2[c].unwrap()); f_obs!(f2, F2B, d) });
+                }
                 (_, Some(x), _) => { out.call("mf", json!({"T": "Fq2", "d": F2B + d, "fn": "copy", "a": F2B + x}), || { f2[d] = f2[x]; f_obs!(f2, F2B, d) }); }
             }
         }
